@@ -508,8 +508,37 @@ def check_exclusions(idx, run, rule="C10.R4", only=None):
     return count
 
 
+
+def GUARDED(idx):
+    """every generation-time constraint check of the directive classes and
+    the validate() of the directive-creating transformations"""
+    out = []
+    names = ("validate_global_constraints", "_validate_collapse_value",
+             "_validate_single_loop", "_encloses_omp_directive")
+    for rel in ("src/psyclone/psyir/nodes/omp_directives.py",
+                "src/psyclone/psyir/nodes/acc_directives.py"):
+        mod = idx.module(rel)
+        for cls in mod.classes.values():
+            for name in names:
+                if name in cls.methods:
+                    out.append((cls.qname, name))
+    for tname in ("ParallelRegionTrans", "OMPSingleTrans", "OMPParallelTrans",
+                  "ACCParallelTrans", "ACCLoopTrans", "OMPTaskloopTrans",
+                  "OMPTargetTrans", "ACCKernelsTrans", "ACCEnterDataTrans",
+                  "ACCRoutineTrans", "OMPDeclareTargetTrans",
+                  "OMPTaskTrans", "OMPTaskwaitTrans", "ACCUpdateTrans"):
+        try:
+            cls = idx.get_class(tname)
+        except Exception:      # pylint: disable=broad-except
+            continue
+        if "validate" in cls.methods:
+            out.append((tname, "validate"))
+    return sorted(set(out))
+
 def check(idx, run):
     run.explanation = __doc__
+    from sa.guards import check_guards
+    check_guards(idx, run, "C10.R5", GUARDED)
     check_table(idx, run)
     check_collapse(idx, run)
     check_before_emit(idx, run)
